@@ -162,11 +162,12 @@ def verdict_accepts(cb, prog, wnames, idxpos, proofpos):
     return acc, len(idx_terms)
 
 
-def check(run):
+def check(run, prefix="O15"):
+    P = prefix
     prog = run.program("lib")
 
     # ------------------------------------------------------------------ O15.1
-    o = run.ob("O15.1", "index exhaustion: the verdict of every proof check depends on the residual index, not only on its low bits",
+    o = run.ob(P + ".1", "index exhaustion: the verdict of every proof check depends on the residual index, not only on its low bits",
                "otherwise index + k*2^len verifies for every k: positions beyond the tree's width are accepted and the slice count of a block can be misreported", floor=2)
     ws = walkers(prog)
     if len(ws) < 2:
@@ -251,7 +252,7 @@ def check(run):
             o.check(not wrong, key + "|index-domain-exact", "index conditions accept exactly 0 <= index < 2^len (evaluated for len 0..5, index 0..2^(len+1)+2)", b.span,
                     {"first_wrong": [{"fn": x[0], "index": x[1], "proof_len": x[2], "accepted": x[3]} for x in wrong[:4]], "verdict_fns": [(x[0], x[2]) for x in vaccs]})
         except Unknown as e:
-            run.notes.append("O15.1 %s: exactness of the index domain not decided (%s); only dependence on the residual is checked" % (key, e))
+            run.notes.append(P + ".1 %s: exactness of the index domain not decided (%s); only dependence on the residual is checked" % (key, e))
         if ok_a:
             o.ok(key + "|residual-checked-in-walk", "the positive result is guarded by a comparison on the residual index", b.span)
         elif verdicts and ok_b:
@@ -260,7 +261,7 @@ def check(run):
             o.fail(key + "|residual-ignored", "the index is consumed bit by bit and the residual is never examined (index + k*2^len verifies)", b.span, {"verdict_fns": details})
 
     # ------------------------------------------------------------------ O15.2
-    o = run.ob("O15.2", "proof length <= EMPTY_ROOTS.len() is part of both verdicts and dominates EMPTY_ROOTS[height]",
+    o = run.ob(P + ".2", "proof length <= EMPTY_ROOTS.len() is part of both verdicts and dominates EMPTY_ROOTS[height]",
                "an over-long proof indexes EMPTY_ROOTS out of range (panic on hostile input) or walks beyond the maximal height", floor=3)
     b = prog.body(MT + "check_hash_proof")
     if b is None:
@@ -289,7 +290,7 @@ def check(run):
             o.check(g is not None, "derive_hash_root_last|bounds|bb", "indexing is dominated by !(EMPTY_ROOTS.len() < proof.len())", b.blocks[bb]["term"].get("sp", ""), {"guards": K.show_atoms(prog, b, bb)})
 
     # ------------------------------------------------------------------ O15.3
-    o = run.ob("O15.3", "side selection and domain-separation labels",
+    o = run.ob(P + ".3", "side selection and domain-separation labels",
                "swapped sides or a shared label let a proof for one position/level verify for another", floor=11)
     for (b, rem, div) in ws:
         key = fshort(b.defpath)
@@ -369,7 +370,7 @@ def check(run):
         o.check(any("Digest" in c and c.endswith("update") or c.endswith("::update") for c in cs) and any(c.endswith("finalize") for c in cs), "hash_all|sha256-concat", "hash_all = SHA-256 over the concatenation, in order", hb.span)
 
     # ------------------------------------------------------------------ O15.4
-    o = run.ob("O15.4", "last-leaf rule: on an even bit the sibling must be the canonical empty subtree of that height; EMPTY_ROOTS satisfies its recurrence",
+    o = run.ob(P + ".4", "last-leaf rule: on an even bit the sibling must be the canonical empty subtree of that height; EMPTY_ROOTS satisfies its recurrence",
                "otherwise a proof 'this is the last leaf' verifies although non-empty leaves exist to the right: the slice count is misreported", floor=34)
     b = prog.body(MT + "derive_hash_root_last")
     if b is not None:
@@ -399,7 +400,7 @@ def check(run):
         o.check(mh == n, "EMPTY_ROOTS|len", "EMPTY_ROOTS has MAX_MERKLE_TREE_HEIGHT entries", r["span"], {"n": n, "MAX_MERKLE_TREE_HEIGHT": mh})
 
     # ------------------------------------------------------------------ O15.5
-    o = run.ob("O15.5", "verdict plumbing: check_proof / check_proof_last hash the given leaf and return the verdict of the hash-level check for the same index/root/proof",
+    o = run.ob(P + ".5", "verdict plumbing: check_proof / check_proof_last hash the given leaf and return the verdict of the hash-level check for the same index/root/proof",
                "a wrapper passing another index or ignoring the result defeats the check", floor=2)
     def last_verdict(b, hashed):
         """the body decides 'last leaf' correctly: true only when derive_hash_root_last(hash, index, proof) is Some(d) and d == root"""
